@@ -68,13 +68,26 @@ structure View where
   umask : Nat
   deriving DecidableEq, Repr
 
+/-- MemInfo -/
+structure Info where
+  name : Bytes
+  kind : Nat          -- 0 dir, 1 file, 2 symlink
+  perm : Nat
+  uid : Int
+  gid : Int
+  nlink : Int
+  size : Nat
+  id : Nat
+  mtime : Option Int
+  deriving DecidableEq, Repr
+
 /-- open-file handle (MemFile / OrefaFile) -/
 structure Handle where
   nd : Option Ino               -- none after Close
   name : Bytes
-  at : Int
+  pos : Int                     -- `at`: the handle offset
   om : Nat                      -- OpenMode bits
-  dirEntries : Option (List Bytes)   -- cached listing of ReadDir (names; infos are re-read from the heap at dump time)
+  dirEntries : Option (List Info)    -- cached listing of ReadDir(n>0) (`nil` = none)
   dirNames : Option (List Bytes)
   dirIndex : Nat
   view : Nat
